@@ -182,6 +182,10 @@ func scnActor(ctx *check.JobCtx) {
 	w.CreateNode(att)
 	w.AddVstorage(att, 50_000_000)
 	w.ResetNode(att, world.StatusAll, victimsTx, "")
+	// the first victim provider lists its own account next to a delegate; the second lists only a delegate
+	spHot := w.Acct("pay-ro")
+	w.ResetNode(a.sps[0].Acct, world.StatusAll, []string{a.sps[0].Acct.Addr.String(), spHot.Addr.String()}, "")
+	w.ResetNode(a.sps[1].Acct, world.StatusAll, []string{spHot.Addr.String()}, "")
 	w.EndBlock()
 	rounds := int(ctx.ArgInt("rounds", 2))
 	adv := func(cs string) map[string]interface{} { return map[string]interface{}{"c10.case": cs} }
@@ -201,7 +205,7 @@ func scnActor(ctx *check.JobCtx) {
 		_, ready := w.Store(world.StoreReq{Owner: a.owner.Id, Gateway: a.gw, Relayer: a.gw.HotKeys[0], DataId: did1, CommitId: did1, Duration: 3600, Replica: 2, Timeout: 500, Size: 1000})
 		did2 := w.NewDataId()
 		_, pending := w.Store(world.StoreReq{Owner: a.sowner.Id, Gateway: a.gw, Relayer: a.sowner.Pay, MsgProv: a.sowner.Pay.Addr.String(), DataId: did2, CommitId: did2, Duration: 3600, Replica: 1, Timeout: 500, Size: 1000})
-		done := a.newModel(a.owner, 2)
+		done := a.newModel(a.owner, 4) // every victim provider holds a shard of it
 		w.EndBlock()
 		for _, signer := range []*actors.Account{att, att2} {
 			sname := map[*actors.Account]string{att: "attacker-node", att2: "attacker-account"}[signer]
@@ -289,6 +293,10 @@ func scnActor(ctx *check.JobCtx) {
 		if _, o7 := w.Store(world.StoreReq{Owner: a.owner.Id, Gateway: a.gw, Relayer: a.owner.Pay, MsgProv: a.owner.Pay.Addr.String(), DataId: did7, CommitId: did7, Duration: 3600, Replica: 1, Timeout: 500, Size: 1000,
 			Sponsor: a.owner.Id.DID(), Meta: adv("control/store/selfpaid-by-payment-address")}); o7 != 0 {
 			w.Cancel(a.owner.Pay, o7, a.owner.Pay.Addr.String())
+		}
+		if r == 0 {
+			// control: the delegate a provider registered may hand the provider's shards over
+			w.Deliver("migrate", spHot, adv("control/migrate/registered-delegate"), saotypes.NewMsgMigrate(spHot.Addr.String(), []string{done}, a.sps[1].Acct.Addr.String()))
 		}
 		w.Deliver("migrate", a.sps[0].Acct, adv("control/migrate/holder"), saotypes.NewMsgMigrate(a.sps[0].Acct.Addr.String(), []string{done}, a.sps[0].Acct.Addr.String()))
 		w.EndBlock()
